@@ -29,7 +29,7 @@ def canon(item):
 def run(chk, tier):
     P = Prog("default")
     chk.configs.add("default")
-    for r in (r_helpers, r_specifiers, r_composites, r_pads, r_numeric_writers, r_wallclock, r_fraction_base, r_absint):
+    for r in (r_helpers, r_specifiers, r_composites, r_pads, r_numeric_writers, r_wallclock, r_fraction_base, r_offset_base, r_absint):
         chk.guarded(r, P, tier)
     chk.assume("the rendered text for each value (week-number formulas, 12-hour clock values, name lookup, offset rounding) is not decided; the documented table is specs/tables/strftime_spec.py")
     return {
@@ -182,3 +182,23 @@ def r_fraction_base(chk, P, tier):
     for k in range(min(n1, 3)):
         chk.ok("path with one base #%d" % (k + 1))
     chk.expect(n1 >= 8, "fraction paths found", "only %d paths of format_fixed use nanosecond() (anchor lost)" % n1)
+
+
+def r_offset_base(chk, P, tier):
+    """an offset is split into hours / minutes / seconds by dividing ONE value (the rounded or the exact offset, per precision); hours taken from the
+    unrounded and minutes from the rounded offset lose the carry (+02:59:45 -> +02:00 instead of +03:00)"""
+    from rules import path_bases
+    chk.rule("SIB.offset_base", "in OffsetFormat::format all of / 60, % 60, / 3600 on one path divide the same offset value (rounded or exact)", floor=2)
+    fn = "format::formatting::<impl format::OffsetFormat>::format"
+    n1 = 0
+    worst = None
+    kinds = set()
+    for p in Sym(P, fn).paths(max_paths=20000):
+        b = path_bases(p, lambda x: is_call(x) and str(x[1]).endswith("local_minus_utc"), (60, 3600), zero_tests=False, fmt_args=False)
+        if len(b) == 1:
+            n1 += 1
+            kinds.add("rounded" if any(x[0] == "bin" and x[1].startswith("Add") for x in walk_terms(list(b)[0])) else "exact")
+        elif len(b) > 1 and worst is None:
+            worst = sorted(pp(x)[:60] for x in b)
+    chk.expect(worst is None, "single base", "OffsetFormat::format divides different offset values on one path: %s" % worst, loc=P.loc(fn))
+    chk.expect(kinds == {"rounded", "exact"} and n1 > 10, "both precisions present", "paths with one base: %d, kinds %s (expected a rounded (+30) and an exact form)" % (n1, sorted(kinds)))
